@@ -71,7 +71,12 @@ func (ts *Timers) withMap(x interface{}) error {
 	if err = json.Unmarshal(js, &ts.Map); err != nil {
 		return err
 	}
-	for _, te := range ts.Map {
+	for id, te := range ts.Map {
+		if te == nil {
+			// {"timers":{"x":null}}
+			delete(ts.Map, id)
+			continue
+		}
 		te.timers = ts
 		te.Ctl = make(chan bool)
 	}
